@@ -308,7 +308,13 @@ def float_to_int(data, digits: Optional[Integer] = None) -> NDArray[np.int64]:
     # multiply by requested power of ten
     # then subtract small epsilon to avoid "go either way" rounding
     # then do the rounding and convert to integer
-    return np.round((data * 10**digits) - 1e-6).astype(np.int64)
+    scaled = np.round((data * 10**digits) - 1e-6)
+    if np.isfinite(scaled).all() and np.abs(scaled).max() < 2**63:
+        return scaled.astype(np.int64)
+    # values that don't fit an int64 (or aren't finite) would all be
+    # cast to the same integer: they are whole numbers already so
+    # compare the bits of the floats where adding zero folds `-0.0`
+    return (scaled + 0.0).view(np.int64)
 
 
 def unique_ordered(
